@@ -611,6 +611,8 @@ def f_cmp(fc, op, a, b):
     if isinstance(a, FInt) and isinstance(b, FInt):
         return int_cmp(op, a.v, b.v, 64, True)
     ra, rb = to_real(fc, a), to_real(fc, b)
+    if ra.eq(rb):
+        return op in ('==', '<=', '>=')
     # affine function of ONE integer cut compared with a constant: decide on the integer (exact)
     if isinstance(b, float) or isinstance(a, float):
         t, cst, opx = (ra, b, op) if isinstance(b, float) else (rb, a, {'<': '>', '<=': '>=', '>': '<', '>=': '<=', '==': '==', '!=': '!='}[op])
